@@ -274,12 +274,26 @@ func (c *Ctx) unknownCall(st *State, fr *Frame, instr ssa.Instruction, name stri
 }
 
 func (c *Ctx) havocAll(st *State) {
+	// remember the current versions: private (non-escaping) locals survive any call
+	oldSyms := map[string]string{}
+	var keys []string
+	for key := range c.memSorts {
+		if strings.HasPrefix(key, "M:") {
+			keys = append(keys, key)
+			oldSyms[key] = c.mem(st, key)
+		}
+	}
+	sortStrings(keys)
 	st.heapTop = c.declareHeapGrow(st)
 	c.counter++
 	st.epoch = fmt.Sprint(c.counter)
 	st.epochTop = st.heapTop
 	st.mem = map[string]string{}
 	st.bases = map[string][]memBase{}
+	for _, key := range keys {
+		nw := c.mem(st, key)
+		st.assume("(forall ((a Addr)) (! (=> (<= (root a) (- 100001)) (= (select " + nw + " a) (select " + oldSyms[key] + " a))) :pattern ((select " + nw + " a))))")
+	}
 }
 
 func (c *Ctx) declareHeapGrow(st *State) string {
@@ -895,8 +909,8 @@ func (c *Ctx) execAppend(st *State, fr *Frame, instr ssa.Instruction, call *ssa.
 		}
 		if known && kn <= 4 && !srcIsString {
 			for j := int64(0); j < kn; j++ {
-				src := fmt.Sprintf("(elem (sarr %s) (+ (soff %s) %d))", t.S, t.S, j)
-				dst := fmt.Sprintf("(elem (sarr %s) (+ (soff %s) (slen %s) %d))", s.S, s.S, s.S, j)
+				src := fmt.Sprintf("(elem (sarr %s) (ix (soff %s) %d))", t.S, t.S, j)
+				dst := fmt.Sprintf("(elem (sarr %s) (ix (soff %s) (+ (slen %s) %d)))", s.S, s.S, s.S, j)
 				v := c.loadWith(func(key string) string { return c.mem(st1, key) }, src, elemT)
 				vn := c.define(st1, "ap", c.reg.SortOf(elemT), v)
 				c.store(st1, dst, elemT, vn)
@@ -924,8 +938,8 @@ func (c *Ctx) execAppend(st *State, fr *Frame, instr ssa.Instruction, call *ssa.
 	c.bulkCopy(st2, arr, "0", s, "(slen "+s.S+")", elemT, false, true)
 	if known && kn <= 4 && !srcIsString {
 		for j := int64(0); j < kn; j++ {
-			src := fmt.Sprintf("(elem (sarr %s) (+ (soff %s) %d))", t.S, t.S, j)
-			dst := fmt.Sprintf("(elem %s (+ (slen %s) %d))", arr, s.S, j)
+			src := fmt.Sprintf("(elem (sarr %s) (ix (soff %s) %d))", t.S, t.S, j)
+			dst := fmt.Sprintf("(elem %s (ix 0 (+ (slen %s) %d)))", arr, s.S, j)
 			v := c.loadWith(func(key string) string { return c.mem(st2, key) }, src, elemT)
 			vn := c.define(st2, "ap", c.reg.SortOf(elemT), v)
 			c.store(st2, dst, elemT, vn)
@@ -964,7 +978,7 @@ func (c *Ctx) bulkCopy(st *State, dstArr, dstOff string, src T, n string, elemT 
 			if srcIsString {
 				srcCell = "(sat_ " + src.S + " (- k " + dstOff + "))"
 			} else {
-				srcCell = "(select " + old + " " + applyPath("(elem (sarr "+src.S+") (+ (soff "+src.S+") (- k "+dstOff+")))", lp.path) + ")"
+				srcCell = "(select " + old + " " + applyPath("(elem (sarr "+src.S+") (ix (soff "+src.S+") (- k "+dstOff+")))", lp.path) + ")"
 			}
 			dstCell := applyPath("(elem "+dstArr+" k)", lp.path)
 			st.assume("(forall ((k Int)) (! (=> (and (<= " + dstOff + " k) (< k (+ " + dstOff + " " + n + "))) (= (select " + nw + " " + dstCell + ") " + srcCell + ")) :pattern ((select " + nw + " " + dstCell + "))))")
@@ -1205,26 +1219,26 @@ func (c *Ctx) callClauses(fr *Frame, call *ssa.CallCommon, kind string) []*Claus
 }
 
 // havocForeign: the callee may write any memory except objects that belong to the function under
-// verification: those reachable directly from its pointer-shaped parameters (their roots) and those
-// it allocated itself. (Separation assumption about foreign code such as node assemblers: they keep
-// no pointer into the caller's private state. Listed in the evidence file.)
+// verification: those referenced directly by its pointer-shaped parameters (their roots) and its
+// private locals. (Separation assumption about foreign code such as node assemblers: they keep no
+// pointer into those objects. Listed in the evidence file.)
 func (c *Ctx) havocForeign(st *State, locs []Loc) {
 	c.foreignUsed = true
 	var prot []string
 	if c.topFrame != nil {
 		for _, p := range c.fn.Params {
 			t := c.topFrame.regs[p]
-			switch t.So {
-			case "Addr":
-				prot = append(prot, "(root "+t.S+")")
-			case "Slice":
-				prot = append(prot, "(root (sarr "+t.S+"))")
-			}
+			prot = append(prot, c.pointerRoots(t.S, p.Type(), 0)...)
+		}
+		for _, fv := range c.fn.FreeVars {
+			t := c.topFrame.regs[fv]
+			prot = append(prot, c.pointerRoots(t.S, fv.Type(), 0)...)
 		}
 	}
-	for _, r := range st.ownRoots.collect() {
-		prot = append(prot, r)
-	}
+	// Objects allocated by the function under verification are NOT protected: once their address has
+	// been handed to other code (stored, passed, boxed) foreign code may legitimately write them (e.g.
+	// a parse context object updated through a callback); those whose address never escapes live in
+	// private negative-id objects, which are always preserved.
 	st.heapTop = c.declareHeapGrow(st)
 	var keys []string
 	for key := range c.memSorts {
@@ -1240,7 +1254,7 @@ func (c *Ctx) havocForeign(st *State, locs []Loc) {
 		for _, r := range prot {
 			ds = append(ds, "(= (root a) "+r+")")
 		}
-		ds = append(ds, "(< (root a) 0)") // globals and private locals
+		ds = append(ds, "(<= (root a) (- 100001))") // private (non-escaping) locals
 		var inf string
 		if strings.HasPrefix(key, "M:") {
 			inf = c.inFrame(locs, key, "a")
@@ -1249,4 +1263,26 @@ func (c *Ctx) havocForeign(st *State, locs []Loc) {
 		}
 		st.assume("(forall ((a Addr)) (! (=> (and " + or(ds...) + " (not " + orFalse(inf) + ")) (= (select " + nw + " a) (select " + old + " a))) :pattern ((select " + nw + " a))))")
 	}
+}
+
+// pointerRoots: roots of the objects directly referenced by a value (through pointers and slices,
+// also inside by-value structs).
+func (c *Ctx) pointerRoots(v string, t types.Type, depth int) []string {
+	if depth > 3 {
+		return nil
+	}
+	switch u := t.Underlying().(type) {
+	case *types.Pointer, *types.Map:
+		return []string{"(root " + v + ")"}
+	case *types.Slice:
+		return []string{"(root (sarr " + v + "))"}
+	case *types.Struct:
+		si := c.reg.structInfoOf(t)
+		var out []string
+		for i := 0; i < u.NumFields(); i++ {
+			out = append(out, c.pointerRoots(fmt.Sprintf("(%s_f%d %s)", si.name, i, v), u.Field(i).Type(), depth+1)...)
+		}
+		return out
+	}
+	return nil
 }
